@@ -263,6 +263,8 @@ class ExprMixin:
             if v is None:
                 return VOpt(True, self.default_of(shape[1]))
             if isinstance(v, VOpt):
+                if shape[1][0] == "enum" and isinstance(v.val, (VConc, VEnumSym)):
+                    return VOpt(v.isnone, self.coerce(v.val, shape[1]))  # Optional enum member not yet encoded: its ordinal
                 return v
             return VOpt(False, self.coerce(v, shape[1]))
         if k == "real" and (is_int(v) or isinstance(v, (float, Fraction))):
@@ -278,6 +280,21 @@ class ExprMixin:
             return VTuple([self.coerce(x, s) for x, s in zip(v.items, shape[1])])
         if k == "hlist" and isinstance(v, VHList) and len(v.items) == len(shape[1]):
             return VHList([self.coerce(x, s) for x, s in zip(v.items, shape[1])])
+        if k == "enum" and isinstance(shape[1], tuple) and isinstance(v, (VConc, VEnumSym)):
+            # enum[A,B,..]: a member of one of several Enum classes of the module under verification is encoded by its
+            # position in the concatenation of the classes' member lists (injective over the union: the offset of the
+            # member's own class plus its ordinal there); a member of a class that is not listed is refused
+            cls = v.cls if isinstance(v, VEnumSym) else type(v.obj)
+            off = 0
+            for nm in shape[1]:
+                c_ = getattr(self.realmod, nm, None)
+                if not (isinstance(c_, type) and issubclass(c_, enum.Enum)):
+                    raise Unsupported(f"enum[..]: {nm} is not an Enum class of the module under verification")
+                if c_ is cls:
+                    inner = self.coerce(v, ("enum", nm))
+                    return inner + off if isinstance(inner, int) else to_z3(inner) + off
+                off += len(list(c_))
+            raise Unsupported(f"a member of {getattr(cls, '__name__', cls)} stored where enum[{','.join(shape[1])}] is declared")
         if k == "enum" and isinstance(v, VConc):
             return self.enum_ord(v.obj)
         if k == "enum" and isinstance(v, VEnumSym):
@@ -367,12 +384,52 @@ class ExprMixin:
         if n in self.classes:
             return VFunc("class", n, n)
         if hasattr(self.realmod, n):
+            if isinstance(getattr(self.realmod, n), (dict, list, set, bytearray)) and n in self.mutated_module_globals():
+                # a module-level container that some function of the module writes (a cache, a registry): its value when the
+                # function under contract runs is NOT its import-time value - hidden state, outside the engine's subset
+                raise Unsupported(f"module-level mutable state {n}: the module writes it in a function body, so its value at call time is unknown")
             return self.from_py(getattr(self.realmod, n))
         if f"builtins.{n}" in self.externals:
             # a builtin (open, print ...) whose assumed contract the sidecar supplies as an external (trusted base)
             from .engine import _ExtHandle
             return VConc(_ExtHandle(f"builtins.{n}"))
         raise Unsupported(f"unbound name {n} at line {node.lineno}")
+
+    def mutated_module_globals(self):
+        """names bound at module level that some function body of the module mutates in place or rebinds: item / attribute
+        store or delete through the name, augmented assignment, a mutating method call on it, a `global` declaration
+        (syntactic; a same-named local of another function counts too - that only widens the refusal)"""
+        cache = self.__dict__.get("_mutated_globals")
+        if cache is None:
+            from .calls import MUTATING
+            top = set()
+            for n_ in self.tree.body:
+                for t_ in (n_.targets if isinstance(n_, ast.Assign) else [n_.target] if isinstance(n_, (ast.AnnAssign, ast.AugAssign)) else []):
+                    if isinstance(t_, ast.Name):
+                        top.add(t_.id)
+            cache = set()
+
+            def base_name(t_):
+                while isinstance(t_, (ast.Subscript, ast.Attribute)):
+                    t_ = t_.value
+                return t_.id if isinstance(t_, ast.Name) else None
+
+            for f_ in ast.walk(self.tree):
+                if not isinstance(f_, (ast.FunctionDef, ast.AsyncFunctionDef)):
+                    continue
+                for n_ in ast.walk(f_):
+                    if isinstance(n_, ast.Global):
+                        cache.update(n_.names)
+                    elif isinstance(n_, (ast.Assign, ast.AugAssign, ast.AnnAssign, ast.Delete)):
+                        ts_ = n_.targets if isinstance(n_, (ast.Assign, ast.Delete)) else [n_.target]
+                        for t_ in ts_:
+                            if isinstance(t_, (ast.Subscript, ast.Attribute)) or isinstance(n_, ast.AugAssign):
+                                cache.add(base_name(t_))
+                    elif isinstance(n_, ast.Call) and isinstance(n_.func, ast.Attribute) and n_.func.attr in MUTATING | {"popitem"}:
+                        cache.add(base_name(n_.func.value))
+            cache = {x for x in cache if x in top}
+            self._mutated_globals = cache
+        return cache
 
     def ev_Tuple(self, node, st):
         return VTuple([self.ev(e, st) for e in node.elts])
@@ -515,6 +572,31 @@ class ExprMixin:
                 v = v.val  # `x or d` (d never None) yields x only when x is truthy, hence not None: its payload
             res = self.merge(t, res, v) if isand else self.merge(t, v, res)
         return res
+
+    def ev_cond(self, node, st):
+        """truth value of an expression that is only tested (the test of an `if`): for `a and b` / `a or b` / `not a` the truth
+        values of the operands are combined directly, without building the VALUE of the expression; short-circuit guards as in
+        ev_BoolOp.  Same truth value as truth(ev(node)) wherever that is defined."""
+        if isinstance(node, ast.BoolOp):
+            isand = isinstance(node.op, ast.And)
+            ts, pushed = [], 0
+            try:
+                for e in node.values:
+                    t = self.ev_cond(e, st)
+                    ts.append(t)
+                    cb = conc_bool(t)
+                    if (cb is False and isand) or (cb is True and not isand):
+                        break
+                    self.guard.append(to_z3(t) if isand else NOT(t))
+                    pushed += 1
+            finally:
+                for _ in range(pushed):
+                    self.guard.pop()
+            return (AND if isand else OR)(*ts)
+        if isinstance(node, ast.UnaryOp) and isinstance(node.op, ast.Not):
+            t = self.ev_cond(node.operand, st)
+            return (not t) if isinstance(t, bool) else NOT(t)
+        return self.truth(self.ev(node, st))
 
     def ev_UnaryOp(self, node, st):
         v = self.ev(node.operand, st)
@@ -680,6 +762,12 @@ class ExprMixin:
                 if isinstance(op, ast.Lt) and isinstance(left, VRef) and isinstance(right, VRef) and not self.spec \
                         and self.resolve(f"{left.cls}.__lt__"):
                     c = self.truth(self.call_method(left, "__lt__", [right], {}, node, st))  # a < b is a.__lt__(b)
+                elif isinstance(op, (ast.In, ast.NotIn)) and isinstance(right, VRef) and not self.spec \
+                        and f"{right.cls}.__contains__" in self.externals:
+                    # `x in obj` for an object of a class whose __contains__ the sidecar models (assumed external): obj.__contains__(x)
+                    c = self.truth(self.call_method(right, "__contains__", [left], {}, node, st))
+                    if isinstance(op, ast.NotIn):
+                        c = (not c) if isinstance(c, bool) else NOT(c)
                 else:
                     c = self.compare(op, left, right, node, st)
                 res.append(c)
@@ -779,7 +867,7 @@ class ExprMixin:
     def contains(self, cont, x, node=None):
         if isinstance(cont, VConc):
             obj = cont.obj
-            if isinstance(obj, (str, tuple, list, set, frozenset, dict)):
+            if isinstance(obj, (str, tuple, list, set, frozenset, dict, types.MappingProxyType)):  # (a mapping proxy - e.g. Enum.__members__ - tests its keys, like the dict it wraps)
                 if is_conc(x):
                     return x in obj
                 if isinstance(obj, str):
@@ -959,6 +1047,10 @@ class ExprMixin:
     def enum_lookup(self, cls, name, node):
         """Enum[name]: KeyError unless name is a member name"""
         members = list(cls.__members__.items())
+        if isinstance(name, VOpt):
+            # Enum[x] with x Optional: None is not a member name (KeyError), otherwise the lookup of its payload
+            self.may_raise(name.isnone, "KeyError", node)
+            name = name.val
         if isinstance(name, str):
             if name in cls.__members__:
                 return VConc(cls[name])
